@@ -128,6 +128,11 @@ func Open(opt *Options) *DB {
 	if db.opt.BloomCacheSize < 0 {
 		db.opt.BloomCacheSize = 0
 	}
+	if db.opt.MemTableSize <= 0 {
+		// Not set. The LSM rotates memtables until a write fits, so it needs a positive size:
+		// with zero every write rotated for ever and neither it nor Close returned.
+		db.opt.MemTableSize = 64 << 20
+	}
 
 	lock, err := utils.AcquireDirLock(opt.WorkDir, db.fs)
 	utils.Panic(err)
